@@ -256,7 +256,7 @@ func scanRows(ctx context.Context, res *exec.Result) ([]row, error) {
 			r[i] = cloneProgVal(reflect.ValueOf(ptrs[i]).Elem().Interface())
 		}
 		rows = append(rows, r)
-		if len(rows) > 5_000_000 {
+		if len(rows) > 50_000_000 {
 			return rows, fmt.Errorf("verif: scan does not end")
 		}
 	}
